@@ -127,7 +127,7 @@ Inductive res :=
 | RNoId         (* every drawn id collided: the loop would go on drawing *)
 | RNoTmp        (* model artefact: the operation was given too few temp names *)
 | RTmpExists    (* mkstemp name already present (cannot happen: O_EXCL) *)
-| REmptyWrite   (* aio_write of an empty piece returns 0 -> IOError *)
+| REmptyWrite   (* IOError out of aio_write: an empty piece (returns 0) or a reported error (ENOSPC, EFBIG) *)
 | RCorrupt      (* unpickling error *)
 | RWrongType.   (* redis: hash command sent to the list key *)
 
